@@ -6,6 +6,7 @@ pub mod report;
 pub mod util;
 pub mod callargs;
 pub mod bsys;
+pub mod universe;
 pub mod xs;
 pub mod checks;
 pub mod replay;
